@@ -65,8 +65,13 @@ func runC20Seq(t *testing.T, ops []string) (sig, msg string) {
 		installDetRand()
 		w := &c20World{b: b}
 		l := lat{Enc: "off"}
+		noProbe := len(ops) > 0 && ops[0] == "cfg:noprobe"
 		w.p = newPairOpt(b, l, false, func(name string, c *ml.Config) {
 			c.ProbeInterval = time.Second
+			if noProbe {
+				// failure detection switched off (ProbeInterval 0), gossip and push/pull still on
+				c.ProbeInterval = 0
+			}
 			c.ProbeTimeout = 300 * time.Millisecond
 			c.GossipInterval = 200 * time.Millisecond
 			c.PushPullInterval = 7 * time.Second
@@ -82,6 +87,10 @@ func runC20Seq(t *testing.T, ops []string) (sig, msg string) {
 		for i, z := range []string{"z1", "z2"} {
 			a.M.VAliveNode(&ml.VAlive{Incarnation: 1, Node: z, Addr: ip4(byte(120 + i)), Port: 7946, Vsn: defaultVsn}, nil, false)
 			a.M.VDeadNode(&ml.VDead{Incarnation: 1, Node: z, From: "somebody"})
+		}
+		if noProbe {
+			// the application always has something to gossip: background traffic never dries up by itself
+			a.D.Chatter = []byte("chatter")
 		}
 		a.M.VSchedule() // the real tickers
 		peerNode := func() *ml.Node { return w.p.nodeOf(w.peer) }
@@ -99,6 +108,7 @@ func runC20Seq(t *testing.T, ops []string) (sig, msg string) {
 			var blocked bool
 			sentBefore := a.T.NumSent()
 			switch op {
+			case "cfg:noprobe":
 			case "join":
 				p, blocked = call(6*time.Second, func() { _, _ = a.M.Join([]string{string(w.peer.Addr)}) })
 			case "members":
@@ -326,6 +336,13 @@ func TestC20(t *testing.T) {
 	for _, pf := range prefixes {
 		dfs(pf, nil)
 	}
+	// the same node with failure detection switched off (ProbeInterval 0): shorter sequences
+	saved := depth
+	depth = 2
+	for _, pf := range [][]string{{"cfg:noprobe"}, {"cfg:noprobe", "join"}, {"cfg:noprobe", "join", "leave"}} {
+		dfs(pf, []string{"tick"})
+	}
+	depth = saved
 	// ---- Engine T part
 	tb := 2
 	if thorough() {
